@@ -179,7 +179,7 @@ def run_tlc(ctx, spec, cfg, workers=8, simulate=None, depth=None, extra_env=None
         raise NoVerdict("TLC timed out after %ss on %s/%s" % (timeout, spec, cfg))
     if res.rc not in (0,) and not quiet_ok:
         # keep the log for diagnosis
-        tail = "\n".join(p.stdout.splitlines()[-40:])
+        tail = "\n".join([x for x in p.stdout.splitlines() if not x.startswith('<<"VERIF_')][-40:])[-3000:]
         res.error = tail
     ctx.cov["tlc_runs"].append({"spec": spec, "cfg": cfg, "rc": res.rc, "generated": res.generated,
                                 "distinct": res.distinct, "depth": res.depth, "wall_s": round(res.wall, 2)})
